@@ -122,6 +122,25 @@ def run_property(pid, spec, tier, seed, work, t0, replay=None, no_prove=False):
         for (i, why) in spec["post"](cases, impl):
             v.prop_fail.append((i, cases[i], impl[i], "", "", why))
 
+    # ---- 3b. two builds that differ only in how automatic variables are
+    #          pre-filled must agree on every output (C12, thorough tier) ---
+    two_note = {}
+    if spec.get("two_builds") and (tier == "thorough" or os.environ.get("VERIF_TWO_BUILDS")):
+        outs = []
+        for fill in ("zero", "pattern"):
+            hb, hl = C.build_harness(variant="plain", extra_flags=["-ftrivial-auto-var-init=" + fill])
+            if hb is None:
+                two_note["build_" + fill] = "failed"
+                break
+            o, _f = C.run_sharded(hb, cases, work, "fill_" + fill, env=env)
+            outs.append(o)
+        if len(outs) == 2:
+            diffs = [i for i, (x, y) in enumerate(zip(outs[0], outs[1])) if x != y]
+            two_note["auto_var_init_differences"] = len(diffs)
+            for i in diffs[:50]:
+                v.prop_fail.append((i, cases[i], outs[0][i] + " <zero-fill | pattern-fill> " + outs[1][i], "", "",
+                                    "outputs differ between -ftrivial-auto-var-init=zero and =pattern builds: an uninitialised value influences behaviour"))
+
     # ---- 4. decide ---------------------------------------------------
     rc = 0
     violations = 0
@@ -196,6 +215,7 @@ def run_property(pid, spec, tier, seed, work, t0, replay=None, no_prove=False):
         "known_findings_hit": sorted(reported_known),
         "builds": binfo,
         "exhaustive": bool(spec.get("exhaustive", {}).get(tier, False)),
+        "two_build_comparison": two_note,
     }
     cov.update(spec.get("extra_cov", {}))
     C.write_evidence(pid, tier, seed, cov, time.time() - t0, violations, spec.get("assumptions", []))
@@ -217,7 +237,7 @@ reg("C03", gen=gen_zone.gen_c03)
 reg("C06", gen=gen_zone.gen_c06, post=gen_zone.post_c06)
 reg("C11", gen=gen_zone.gen_c11)
 reg("C10", gen=gen_zone.gen_c10, ub_is_violation=True)
-reg("C12", gen=gen_zone.gen_c12, ub_is_violation=True, model_err_is_violation=True)
+reg("C12", gen=gen_zone.gen_c12, ub_is_violation=True, model_err_is_violation=True, two_builds=True)
 reg("C14", gen=gen_zone.gen_c14, post=gen_zone.post_c14)
 reg("C07", gen=gen_fmt.gen_c07)
 reg("C08", gen=gen_fmt.gen_c08, ub_is_violation=True)
